@@ -2,5 +2,5 @@ SPECIFICATION Spec
 CONSTANTS
   Inputs <- AllT
   Mutations = {"none", "flip", "wrongcrc", "dropcrc"}
-INVARIANTS RoundTrip HeaderExact CorruptRejected PadBitsOnly MissingCrcAccepted Shape B64Inverse Emit
+INVARIANTS RoundTrip HeaderExact CorruptRejected ShortCrcRejected PadBitsOnly MissingCrcAccepted Shape B64Inverse Emit
 CHECK_DEADLOCK FALSE
